@@ -99,6 +99,9 @@ def systematic(fam, profile):
                                ("df", ("L", 0)), ("mutate", "H", 1, 1), ("mutate", "R", 1, 2), ("df", ("L", 0))]))
         out.append(("fitted", [p(mid), ("df", ("O", ix(fam, P + mid))), ("mutate", "H", 0, 0), ("mutate", "H", 1, 2), p(mid),
                                ("mutate", "H", 2, 4), ("df", ("O", ix(fam, P + mid))), p(mid)]))
+        # writes through the numpy buffers of what was handed out (copy-on-write does not intercept them)
+        out.append(("fitted", [("df", ("O", ix(fam, P + mid))), ("mutate", "H", 0, 5), ("df", ("O", ix(fam, P + mid))), p(mid),
+                               ("mutate", "H", 2, 5), ("mutate", "H", 1, 5), p(mid), ("to_json",), ("df", ("O", ix(fam, P + mid)))]))
         # fits of other meters (a poor fit among them: the poor-fit disqualification must not reach the data object)
         nb = len([n for n in L.OBJ_ORDER[fam] if L.OBJ[n]["role"] == "baseline"]) - 1
         noisy = [i for i, n in enumerate([n for n in L.OBJ_ORDER[fam] if L.OBJ[n]["role"] == "baseline" and
